@@ -66,11 +66,8 @@ theorem lstep_E (J : List Str) (p o : Str) (c : Char) :
   simp only [lstep]
   by_cases h1 : p ++ [c] ∈ J
   · simp only [h1, if_true]
+    rfl
   · simp only [h1, if_false]
-    by_cases h2 : J.any (fun e => (p ++ [c]).isPrefixOf e) = true
-    · simp only [h2, if_true]
-    · have : J.any (fun e => (p ++ [c]).isPrefixOf e) = false := by simpa using h2
-      simp only [this, Bool.false_eq_true, if_false]
 
 /-- reading the rest of an escape sequence of `J` from inside it ends in the string with the character appended -/
 theorem lrun_escape (J : List Str) (hJ : EscSet J) (e : Str) (he : e ∈ J) (d : Char) (hd : escTable.lookup e = some d) :
@@ -131,5 +128,220 @@ theorem escape_completes (J : List Str) : ∀ (r p o t : Str), lfinal (lrun (som
         simp only [hany', Bool.false_eq_true, if_false] at h
         rw [lrun_dead] at h
         simp [lfinal] at h
+
+/-! ### one escape pass: the scanner with and without the escape that is being replaced -/
+
+/-- the escape set after the pass for `e` -/
+def dropEsc (J : List Str) (e : Str) : List Str := J.filter (· ≠ e)
+
+theorem mem_dropEsc (J : List Str) (e x : Str) : x ∈ dropEsc J e ↔ x ∈ J ∧ x ≠ e := by
+  simp [dropEsc]
+
+/-- outside an escape sequence a step does not look at the escape set -/
+theorem lstep_same (J J' : List Str) (m : LM) (c : Char) (h : ∀ p, m.q ≠ .E p) :
+    lstep (some J') m c = lstep (some J) m c := by
+  obtain ⟨q, o⟩ := m
+  cases q with
+  | E p => exact absurd rfl (h p)
+  | _ => simp [lstep]
+
+/-- a backslash can only be read inside a string -/
+theorem backslash_needs_S (J : List Str) (hJ : EscSet J) (m : LM) (r t : Str)
+    (h : lfinal (lrun (some J) m ('\\' :: r)) = some t) : m.q = .S := by
+  obtain ⟨q, o⟩ := m
+  rw [lrun_cons] at h
+  cases q with
+  | S => rfl
+  | T => simp [lstep, isIdentStart] at h; rw [lrun_dead] at h; simp [lfinal] at h
+  | N acc =>
+    have : lstep (some J) ⟨.N acc, o⟩ '\\' = ⟨.X, o⟩ := by simp [lstep, isIdentChar]
+    rw [this, lrun_dead] at h; simp [lfinal] at h
+  | A k =>
+    have : lstep (some J) ⟨.A k, o⟩ '\\' = ⟨.X, o⟩ := by simp [lstep]
+    rw [this, lrun_dead] at h; simp [lfinal] at h
+  | X => rw [lstep_dead, lrun_dead] at h; simp [lfinal] at h
+  | E p =>
+    rw [lstep_E] at h
+    have h1 : p ++ ['\\'] ∉ J := fun hm => hJ.noBackslash _ hm (by simp)
+    have h2 : J.any (fun e => (p ++ ['\\']).isPrefixOf e) = false := by
+      rw [List.any_eq_false]
+      intro e he hp
+      rw [List.isPrefixOf_iff_prefix] at hp
+      obtain ⟨s, hs⟩ := hp
+      exact hJ.noBackslash e he (by rw [← hs]; simp)
+    simp only [h1, if_false, h2, Bool.false_eq_true] at h
+    rw [lrun_dead] at h; simp [lfinal] at h
+
+/-- one character that is not the start of an occurrence of the escape being replaced: both scanners move alike -/
+theorem esc_step (J : List Str) (hJ : EscSet J) (e : Str) (he : e ∈ J) (m : LM) (c : Char) (r t : Str)
+    (hrun : lfinal (lrun (some J) m (c :: r)) = some t)
+    (hI3 : ∀ p, m.q = .E p → ¬ e <+: p ++ c :: r)
+    (hnm : m.q = .S → c = '\\' → ¬ e <+: r) :
+    lstep (some (dropEsc J e)) m c = lstep (some J) m c ∧
+      (∀ p, (lstep (some J) m c).q = .E p → ¬ e <+: p ++ r) := by
+  obtain ⟨q, o⟩ := m
+  rw [lrun_cons] at hrun
+  cases q with
+  | E p =>
+    have hI := hI3 p rfl
+    rw [lstep_E, lstep_E]
+    rw [lstep_E] at hrun
+    by_cases hm : p ++ [c] ∈ J
+    · have hne : p ++ [c] ≠ e := by
+        intro heq; apply hI; rw [← heq]; exact ⟨r, by simp⟩
+      have hm' : p ++ [c] ∈ dropEsc J e := (mem_dropEsc J e _).2 ⟨hm, hne⟩
+      simp only [hm, hm', if_true]
+      refine ⟨trivial, ?_⟩
+      intro p' hq
+      cases hl : escTable.lookup (p ++ [c]) <;> simp [hl] at hq
+    · simp only [hm, if_false] at hrun ⊢
+      have hm' : p ++ [c] ∉ dropEsc J e := fun h => hm ((mem_dropEsc J e _).1 h).1
+      simp only [hm', if_false]
+      by_cases hany : J.any (fun x => (p ++ [c]).isPrefixOf x) = true
+      · simp only [hany, if_true] at hrun ⊢
+        obtain ⟨e', he', hp1, hp2⟩ := escape_completes J r (p ++ [c]) o t hrun
+        have hne : e' ≠ e := by
+          intro heq; subst heq; apply hI; simpa using hp2
+        have hany' : (dropEsc J e).any (fun x => (p ++ [c]).isPrefixOf x) = true := by
+          rw [List.any_eq_true]
+          exact ⟨e', (mem_dropEsc J e e').2 ⟨he', hne⟩, by rw [List.isPrefixOf_iff_prefix]; exact hp1⟩
+        simp only [hany', if_true]
+        refine ⟨trivial, ?_⟩
+        intro p' hq
+        simp only [LQ.E.injEq] at hq
+        subst hq
+        simpa using hI
+      · have hany0 : J.any (fun x => (p ++ [c]).isPrefixOf x) = false := by simpa using hany
+        simp only [hany0, Bool.false_eq_true, if_false] at hrun
+        rw [lrun_dead] at hrun; simp [lfinal] at hrun
+  | S =>
+    refine ⟨lstep_same J _ _ c (by intro p; simp), ?_⟩
+    intro p hq
+    by_cases hc : c = '\\'
+    · subst hc
+      have : lstep (some J) ⟨.S, o⟩ '\\' = ⟨.E [], o⟩ := by simp [lstep]
+      rw [this] at hq
+      simp only [LQ.E.injEq] at hq
+      subst hq
+      simpa using hnm rfl rfl
+    · exfalso
+      by_cases hq2 : c = '"'
+      · subst hq2; simp [lstep] at hq
+      · simp [lstep, hc, hq2] at hq
+  | T =>
+    refine ⟨lstep_same J _ _ c (by intro p; simp), ?_⟩
+    intro p hq
+    exfalso
+    simp only [lstep] at hq
+    split at hq <;> (try split at hq) <;> simp at hq
+  | N acc =>
+    refine ⟨lstep_same J _ _ c (by intro p; simp), ?_⟩
+    intro p hq
+    exfalso
+    simp only [lstep] at hq
+    split at hq
+    · simp at hq
+    · split at hq
+      · split at hq <;> simp at hq
+      · simp at hq
+  | A k =>
+    refine ⟨lstep_same J _ _ c (by intro p; simp), ?_⟩
+    intro p hq
+    exfalso
+    simp only [lstep] at hq
+    split at hq <;> (try split at hq) <;> (try split at hq) <;> simp at hq
+  | X =>
+    refine ⟨lstep_same J _ _ c (by intro p; simp), ?_⟩
+    intro p hq
+    simp [lstep] at hq
+
+theorem findFrom_limit (s p : Str) (k limit : Nat) (h : k + p.length > limit) : findFrom s p k limit = none := by
+  unfold findFrom; simp [h]
+
+/-- what `str.find` (as `findFrom`) does on the rest of the text, seen by the two scanners: either the escape does not occur any
+    more and the scanner without it reads the rest like the scanner with it, or the first occurrence is found, inside a string -/
+theorem esc_scan (J : List Str) (hJ : EscSet J) (e : Str) (he : e ∈ J) (d : Char) (hd : escTable.lookup e = some d)
+    (t : Str) (limit : Nat) :
+    ∀ (rest : Str) (m : LM) (k : Nat),
+      lfinal (lrun (some J) m rest) = some t →
+      (∀ p, m.q = .E p → ¬ e <+: p ++ rest) →
+      k + rest.length = limit + 1 →
+      match findFrom rest ('\\' :: e) k limit with
+      | none => lrun (some (dropEsc J e)) m rest = lrun (some J) m rest
+      | some p => ∃ a B, rest = a ++ ('\\' :: e) ++ B ∧ p = k + a.length ∧
+          lrun (some (dropEsc J e)) m a = lrun (some J) m a ∧ (lrun (some J) m a).q = .S := by
+  intro rest
+  induction rest with
+  | nil =>
+    intro m k _ _ hk
+    rw [findFrom]
+    have : k + ('\\' :: e).length > limit := by simp at hk ⊢; omega
+    simp [this, lrun]
+  | cons c r ih =>
+    intro m k hrun hI3 hk
+    rw [findFrom]
+    -- the step lemma, once we know that no occurrence starts here
+    have step (hnm : m.q = .S → c = '\\' → ¬ e <+: r) := esc_step J hJ e he m c r t hrun hI3 hnm
+    have hrun' : lfinal (lrun (some J) (lstep (some J) m c) r) = some t := by rw [lrun_cons] at hrun; exact hrun
+    by_cases hlim : k + ('\\' :: e).length > limit
+    · simp only [hlim, if_true]
+      -- too close to the end for an occurrence: the text would end inside the string
+      have hnm : m.q = .S → c = '\\' → ¬ e <+: r := by
+        intro hS hc hpre
+        obtain ⟨s, hs⟩ := hpre
+        have hl : r.length = e.length + s.length := by rw [← hs]; simp
+        have hs0 : s = [] := by
+          apply List.eq_nil_of_length_eq_zero
+          simp only [List.length_cons] at hk hlim
+          omega
+        subst hs0
+        simp only [List.append_nil] at hs
+        subst hs; subst hc
+        obtain ⟨q, o⟩ := m
+        simp only at hS; subst hS
+        rw [lrun_backslash_escape J hJ e he d hd] at hrun
+        simp [lfinal] at hrun
+      obtain ⟨h1, h2⟩ := step hnm
+      have hk' : k + 1 + r.length = limit + 1 := by simp only [List.length_cons] at hk; omega
+      have := ih (lstep (some J) m c) (k + 1) hrun' h2 hk'
+      have hnone : findFrom r ('\\' :: e) (k + 1) limit = none :=
+        findFrom_limit r _ (k + 1) limit (by omega)
+      rw [hnone] at this
+      simp only at this
+      rw [lrun_cons, lrun_cons, h1, this]
+    · simp only [hlim, if_false]
+      by_cases hpre : (('\\' :: e).isPrefixOf (c :: r)) = true
+      · simp only [hpre, if_true]
+        rw [List.isPrefixOf_iff_prefix] at hpre
+        obtain ⟨B, hB⟩ := hpre
+        refine ⟨[], B, by simpa using hB.symm, by simp, rfl, ?_⟩
+        have hc : c = '\\' := by
+          have := congrArg List.head? hB; simpa using this.symm
+        subst hc
+        simpa [lrun] using backslash_needs_S J hJ m r t hrun
+      · have hpre' : (('\\' :: e).isPrefixOf (c :: r)) = false := (Bool.not_eq_true _).mp hpre
+        simp only [hpre', Bool.false_eq_true, if_false]
+        have hnm : m.q = .S → c = '\\' → ¬ e <+: r := by
+          intro _ hc hp
+          subst hc
+          apply hpre
+          rw [List.isPrefixOf_iff_prefix]
+          obtain ⟨s, hs⟩ := hp
+          exact ⟨s, by rw [← hs]; simp⟩
+        obtain ⟨h1, h2⟩ := step hnm
+        have hk' : k + 1 + r.length = limit + 1 := by simp only [List.length_cons] at hk; omega
+        have := ih (lstep (some J) m c) (k + 1) hrun' h2 hk'
+        cases hf : findFrom r ('\\' :: e) (k + 1) limit with
+        | none =>
+          rw [hf] at this
+          simp only at this ⊢
+          rw [lrun_cons, lrun_cons, h1, this]
+        | some p =>
+          rw [hf] at this
+          simp only at this ⊢
+          obtain ⟨a, B, hr, hp, hrunA, hS⟩ := this
+          refine ⟨c :: a, B, by rw [hr]; simp, by simp; omega, ?_, ?_⟩
+          · rw [lrun_cons, lrun_cons, h1, hrunA]
+          · rw [lrun_cons]; exact hS
 
 end Drx.Lscr
